@@ -359,16 +359,19 @@ def run(ctx):
         ctx.violation(R, f.short, "S gfa1->gfa2", "writes %r, expected %r" %
                       (out[1], want))
     f = ctx.anchor("segment.GFA2._to_gfa1_a", S2.find_method("_to_gfa1_a"))
-    ctx.instance(R)
-    s = Abs(S2, label="seg", tagnames=["RC", "xx"], slen=42)
-    out = eval_function(repo, f, [s], hooks=WH(repo))
-    want = ["S", "<pos:name>", "<pos:sequence>", "LN:i:42", "<tag:RC>",
-            "<tag:xx>"]
-    ok = out[0] == "return" and out[1] == want
-    ctx.oblige(ok)
-    if not ok:
-        ctx.violation(R, f.short, "S gfa2->gfa1", "writes %r, expected %r" %
-                      (out[1], want))
+    for tags in (["RC", "xx"], ["RC", "LN", "xx"]):
+        # a GFA2 segment may itself carry a tag called LN: slen becomes the
+        # LN tag of the GFA1 line, which must then not be written twice
+        ctx.instance(R)
+        s = Abs(S2, label="seg", tagnames=list(tags), slen=42)
+        out = eval_function(repo, f, [s], hooks=WH(repo))
+        want = ["S", "<pos:name>", "<pos:sequence>", "LN:i:42", "<tag:RC>",
+                "<tag:xx>"]
+        ok = out[0] == "return" and out[1] == want
+        ctx.oblige(ok)
+        if not ok:
+            ctx.violation(R, f.short, "S gfa2->gfa1,tags=%s" % "+".join(tags),
+                          "writes %r, expected %r" % (out[1], want))
     ctx.exhaustive[R] = True
 
     # ------------------------------------------------------------------
@@ -401,8 +404,8 @@ def run(ctx):
             ctx.violation(R, f_va.short, "own=%s,target=%s" % (own, target),
                           "gives %r, expected %r" % (out[1], want))
     for own, target, conv, rof in itertools.product(
-            ["gfa1", "gfa2"], ["gfa1", "gfa2", "gfa3"], ["fields", "empty"],
-            [True, False]):
+            ["gfa1", "gfa2"], ["gfa1", "gfa2", "gfa3"],
+            ["fields", "empty", "fields-refused"], [True, False]):
         ctx.instance(R)
         ln = Abs(repo.cls("line.Gap"), label="line", _version=own, vlevel=1)
 
@@ -435,6 +438,11 @@ def run(ctx):
             ok = out[0] == "return" and out[1] is ln
         elif target == "gfa3":
             ok = out[0] == "raise" and str(out[1]).endswith("VersionError")
+        elif conv == "fields-refused":
+            # the converted fields do not make a valid line of the target
+            # version: an error at every setting of raise_on_failure (a
+            # whole-graph conversion must not drop the line silently)
+            ok = out[0] == "raise" and str(out[1]).endswith("RuntimeError")
         elif conv == "fields":
             ok = out[0] == "return" and isinstance(out[1], Abs) and \
                 out[1].label == "converted" and \
@@ -510,12 +518,15 @@ class ConstCall(LineHooks):
                 pass
             from ..tables import Closure
             fn = ast.parse("def f():\n  return %r" % (
-                ["G", "x"] if conv == "fields" else [])).body[0]
+                ["G", "x"] if conv.startswith("fields") else [])).body[0]
             return Closure(fn, ev)
         return super().function(ev, node, args, kwargs)
 
     def construct(self, ev, cls, args, kwargs):
         if cls.name == "Line":
+            if self.conv == "fields-refused":
+                from ..tables import Raised
+                raise Raised("gfapy.FormatError")
             return Abs(cls, label="converted", _args=args, _kwargs=kwargs)
         return super().construct(ev, cls, args, kwargs)
 
